@@ -99,7 +99,7 @@ class TCPServer:
                 await self.idle_task.stop()
 
     async def _read_data(self) -> None:
-        while not self.reader.at_eof():
+        while True:
             try:
                 data = await asyncio.wait_for(self.reader.read(MAX_RECV), self.config.read_timeout)
             except (
@@ -111,7 +111,12 @@ class TCPServer:
             ):
                 break
             else:
+                # An empty read is the client's EOF, the protocol must
+                # see it (e.g. to reject a truncated request) whenever
+                # it arrived, as with the trio worker.
                 await self.protocol.handle(RawData(data))
+                if data == b"":
+                    break
 
         await self.protocol.handle(Closed())
 
